@@ -103,7 +103,7 @@ def check(ctx):
         r1.bad(V(r1.id, f.id, ident,
                  "iteration over %s is consumed by `%s`: %s — the result order depends on the hash seed / directory order"
                  % (s.source, s.call.name, s.why), s.call.file, s.call.line))
-    r1.require_floor(20, "reachable unordered-iteration consumption sites")
+    r1.require_floor(12, "reachable unordered-iteration consumption sites")
     rules.append(r1)
 
     # ---------------------------------------------------------------- D2
@@ -203,7 +203,7 @@ def check(ctx):
                          f.file, st_.get("line")))
             else:
                 r3.ok("%s reads line_number but builds no output text" % short_path(fid))
-    r3.require_floor(18, "templates + line_number reads")
+    r3.require_floor(12, "templates + line_number reads")
     rules.append(r3)
 
     # ---------------------------------------------------------------- D4
